@@ -72,6 +72,12 @@ def runs(ctx: Ctx):
             rep = build(rng, ident, ip, ver, same_ip=rng.random() < 0.6)
             for c in range(rng.choice([1, 1, 2])):
                 plan.append((rng.random() * 3, ip, rng.choice([6445, 20086, 6445, rng.randrange(1024, 65535)]), rep))
+        if not single and k % 3 == 1:
+            # an odd replier (another vendor's gadget, a half-broken unit) answers the same probe: the well-formed repliers are reported all the same
+            from .c18 import bad_reply, BAD_KINDS
+            kind = [x for x in BAD_KINDS if x not in ("xml_port_open", "xml_port_refused")][(k // 3) % (len(BAD_KINDS) - 2)]
+            oip = "10.250.%d.%d" % (rng.randrange(256), rng.randrange(1, 255))
+            plan.append((rng.random() * 3, oip, 6445, bad_reply(kind, rng, oip)))
         plan.sort(key=lambda x: x[0])
         target = plan[0][1] if single else "255.255.255.255"
         v = disc.run_discovery(plan, target=target, single=single)
@@ -107,6 +113,27 @@ def connect_runs(ctx: Ctx):
             bad.append({"ip": ip, "ident": {k: (v.hex() if isinstance(v, bytes) else v) for k, v in ident.items()}, "exc": v["exc"],
                         "returned": [type(d).__name__ for d in devs]})
     return n, bad
+
+
+def other_type_connect_runs(ctx: Ctx):
+    """auto_connect=True (the library default) with appliances of OTHER types among the repliers (a dehumidifier, a water heater ...): they cannot
+    be refreshed by this library, but they answered with a well-formed reply and are reported with their identity all the same."""
+    rng = ctx.rng
+    out = []
+    for k in range(ctx.pick(10, 120)):
+        idents = [rand_identity(rng, typ=rng.choice([0xA1, 0xCC, 0xE2, 0xFA, 0xB8, rng.randrange(256)]), port=6444)] + \
+                 [rand_identity(rng, typ=0xAC, port=6444) for _ in range(rng.choice([0, 1]))]
+        plan = []
+        for j, ident in enumerate(idents):
+            ip = "10.4.%d.%d" % (k % 250, 1 + j)
+            plan.append((rng.choice([0.2, 1.5, 3.0]), ip, 6445, build(rng, ident, ip, 2)))
+        plan.sort(key=lambda x: x[0])
+        single = len(idents) == 1 and k % 2 == 0
+        v = disc.run_discovery(plan, target=plan[0][1] if single else "255.255.255.255", single=single, auto_connect=True,
+                               tcp_devices=(lambda loop, net: landev.LanDevice(loop, net, acdev.ACModel(), version=2)) if k % 3 else (lambda loop, net: None))
+        v.pop("devices", None)
+        out.append(v)
+    return out
 
 
 def slow_connect_runs(ctx: Ctx):
@@ -180,7 +207,7 @@ def mc(ctx, hosts, copies, name):
 def run(ctx: Ctx) -> int:
     ctx.mc("MC_Disc", "INIT Init\nNEXT Next\nINVARIANT RoundTrip\nCHECK_DEADLOCK FALSE\n", name="C17_mc_layout")
     mc(ctx, 3, 2, "C17_mc_run")
-    vs = runs(ctx) + slow_connect_runs(ctx) + hostname_runs(ctx)
+    vs = runs(ctx) + slow_connect_runs(ctx) + hostname_runs(ctx) + other_type_connect_runs(ctx)
     judge(ctx, vs, "C17")
     n, bad = connect_runs(ctx)
     ctx.extra["auto_connect_runs"] = n
@@ -192,7 +219,8 @@ def run(ctx: Ctx) -> int:
         rule="every appliance type byte (lower and upper case hex), ids at all 48-bit byte boundaries + random, ports {1,2,255,256,257,6444,32767,"
              "32768,65535} + random, reported IP equal to / different from the source, V2 and V3 replies, random serial numbers, suffixes and "
              "trailing body bytes, 1-4 hosts per run, duplicates from ports 6445 / 20086 / other, broadcast and single-host discovery, plus "
-             "auto_connect runs against a V2 appliance; distinct = distinct advertised identities",
+             "auto_connect runs against a V2 appliance, appliances of other types with auto_connect, an odd replier (17 malformed-reply classes) among the "
+             "well-formed ones; distinct = distinct advertised identities",
         assumptions=["F4: the order of the returned devices is free", "ids are compared as 6-byte little-endian sequences (TLC integers are 32-bit)"])
 
 
